@@ -227,7 +227,12 @@ fn hostile_conn(r: &mut Rng, nonce: &mut u64, port: u16, span_ms: u64) -> ConnPl
                 let n = if top < 700 { (n / top.max(1)).min(3_000) as u64 + 2 } else { r.range(1, 8) };
                 BodyFraming::Chunked { sizes: (0..n).map(|_| r.usize_in(1, top)).collect(), ext: false, trailer: r.chance(1, 4) }
             };
-            let req = if r.chance(1, 2) {
+            let req = if r.chance(1, 4) {
+                // an endpoint whose own limit (16 bytes) is far below the
+                // server default: 17 bytes are too many there
+                let k = *r.pick(&[17usize, 18, 100, 1000, 1024]);
+                build_request("PUT", "/small", &[hdr("host", "sim"), hdr("x-sim", &format!("{};0;0;0;0", my))], &body[..k], &fr)
+            } else if r.chance(1, 2) {
                 // a well-typed JSON document that is simply too large: only
                 // the size limit stands between it and the handler
                 let mut e = super::echo_gen::gen_typed(r, my, 0, 0);
